@@ -1483,7 +1483,8 @@ namespace awkward {
                  nextcontent.get()->getitem_next(nexthead,
                                                  nexttail,
                                                  nextadvanced),
-                 array.shape());
+                 array.shape(),
+                 len);
       }
       else {
         return nextcontent.get()->getitem_next(nexthead,
